@@ -251,7 +251,8 @@ Definition handler_calls (m : tmsg) : list bcall :=
   else if t =? "trenameat" then [mkbc "RenameAt" (on "OldDirectory") [f "OldName"; filev (f "NewDirectory"); f "NewName"]]
   else if t =? "tunlinkat" then [mkbc "UnlinkAt" (on "Directory") [f "Name"; f "Flags"]]
   else if t =? "trename" then [mkbc "RenameAt" (OnParentOf (fidof (f "fid"))) [VNameOf (fidof (f "fid")); filev (f "Directory"); f "Name"]]
-  else if t =? "tremove" then [mkbc "UnlinkAt" (OnParentOf (fidof (f "fid"))) [VNameOf (fidof (f "fid")); VN 0]]
+  else if t =? "tremove" then   (* remove is a clunk with the side effect of removing: the fid is released even when the removal failed *)
+    [mkbc "UnlinkAt" (OnParentOf (fidof (f "fid"))) [VNameOf (fidof (f "fid")); VN 0]; mkbc "Close" (on "fid") []]
   else if t =? "treadlink" then [mkbc "Readlink" (on "fid") []]
   else if t =? "tgetattr" then [mkbc "GetAttr" (on "fid") [f "AttrMask"]]
   else if t =? "tsetattr" then [mkbc "SetAttr" (on "fid") [f "Valid"; f "SetAttr"]]
@@ -296,7 +297,7 @@ Definition expected (v : N) (name : string) (e : env) : list bcall :=
   else if name =? "RenameAt" then [mkbc "RenameAt" self [p "oldname"; VFile (e_pfid e "newdir"); p "newname"]]
   else if name =? "UnlinkAt" then [mkbc "UnlinkAt" self [p "name"; p "flags"]]
   else if name =? "Rename" then [mkbc "RenameAt" (OnParentOf (e_fid e)) [VNameOf (e_fid e); VFile (e_pfid e "dir"); p "name"]]
-  else if name =? "Remove" then [mkbc "UnlinkAt" (OnParentOf (e_fid e)) [VNameOf (e_fid e); VN 0]]
+  else if name =? "Remove" then [mkbc "UnlinkAt" (OnParentOf (e_fid e)) [VNameOf (e_fid e); VN 0]; mkbc "Close" self []]
   else if name =? "Readlink" then [mkbc "Readlink" self []]
   else if name =? "GetAttr" then [mkbc "GetAttr" self [p "req"]]
   else if name =? "SetAttr" then
